@@ -9,6 +9,7 @@
 package vsched
 
 import (
+	"sync/atomic"
 	"bytes"
 	"fmt"
 	"runtime"
@@ -293,6 +294,18 @@ func Yield(what string) {
 		return
 	}
 	Active().schedule(t, false, what)
+}
+
+// ExtraPoints switches on the optional scheduling points that the overlay injects at synchronisation operations
+// the shim does not see (atomic offset reservation in frac.FileWriter.Write). A harness sets it for the scenarios
+// whose question is the order of such operations; elsewhere the points stay off and cost no schedules.
+var ExtraPoints atomic.Bool
+
+// Extra is an optional scheduling point (see ExtraPoints).
+func Extra(what string) {
+	if ExtraPoints.Load() {
+		Yield(what)
+	}
 }
 
 // Block disables t while cond() is true and yields. cond is evaluated under the scheduler lock and
